@@ -243,7 +243,9 @@ func (env *SpecEnv) lookup(name string) Val {
 			if v, ok := env.cur.cells[cell]; ok {
 				return v
 			}
-			sfail("local %s is not live here", name)
+			// not live at this point: an arbitrary value (facts about it can only hold vacuously)
+			et := cell.Type().(*types.Pointer).Elem()
+			return freshVal("dead_"+name, et)
 		}
 	}
 	if name == "clock" {
@@ -530,6 +532,19 @@ func (env *SpecEnv) call(e *SExpr) Val {
 		need(1)
 		v := env.eval(args[0])
 		return scalar(ToReal(v.S), types.Typ[types.Float64])
+	case "le16", "le32", "le64":
+		need(2)
+		b := env.eval(args[0])
+		o := env.evalInt(args[1])
+		n := map[string]int{"le16": 2, "le32": 4, "le64": 8}[name]
+		row := Select(byteHeap(env.cur), b.F[0].S)
+		return scalar(leDecode(n, row, Add(b.F[1].S, o)), types.Typ[types.Uint64])
+	case "crcUpd":
+		need(2)
+		return scalar(App("crcUpd", SInt, env.evalInt(args[0]), env.strOf(args[1])), types.Typ[types.Uint32])
+	case "byteOf":
+		need(2)
+		return scalar(App("byteOf", SInt, env.evalInt(args[0]), env.evalInt(args[1])), byteType)
 	case "visitedAll":
 		sfail("visitedAll not supported")
 	}
